@@ -35,14 +35,14 @@ def dft_upsample(
     du = np.ceil(1.5 * up).astype(int)
     row = np.arange(-du, du + 1)
     col = np.arange(-du, du + 1)
-    r_shift = shift[0] - M // 2
-    c_shift = shift[1] - N // 2
 
+    # inverse DFT of F evaluated at the sub-pixel positions shift + row / up (the shift belongs
+    # to the sample coordinates, not to the frequency vector); window centre is index du
     kern_row = np.exp(
-        -2j * np.pi / (M * up) * np.outer(row, xp.fft.ifftshift(xp.arange(M)) - M // 2 + r_shift)
+        2j * np.pi / (M * up) * np.outer(row + up * shift[0], xp.fft.ifftshift(xp.arange(M)) - M // 2)
     )
     kern_col = np.exp(
-        -2j * np.pi / (N * up) * np.outer(xp.fft.ifftshift(xp.arange(N)) - N // 2 + c_shift, col)
+        2j * np.pi / (N * up) * np.outer(xp.fft.ifftshift(xp.arange(N)) - N // 2, col + up * shift[1])
     )
     return xp.real(kern_row @ F @ kern_col)
 
@@ -142,7 +142,8 @@ def cross_correlation_shift(
         except (IndexError, ValueError):
             dxf = dyf = 0.0
 
-        shifts = np.array([x0, y0]) + (np.array(peak) - upsample_factor) / upsample_factor
+        # the local window is centred on index du = local.shape // 2 (not upsample_factor)
+        shifts = np.array([x0, y0]) + (np.array(peak) - np.array(local.shape) // 2) / upsample_factor
         shifts += np.array([dxf, dyf]) / upsample_factor
 
     shifts = (shifts + 0.5 * np.array(cc.shape)) % cc.shape - 0.5 * np.array(cc.shape)
